@@ -40,6 +40,13 @@ theorem handlers_pinned : handlerDigests = [
   ("StateMachine.AccountAdd", "023f0267053d"),
   ("StateMachine.AccountSub", "bbb3ce698b58"),
   ("StateMachine.maybeFaucetTopUpForSendTx", "b3a42249979b"),
+  ("StateMachine.AccountVestedAmount", "41bb470ca345"),
+  ("StateMachine.AccountLockedAmount", "8f7a4d79f6e1"),
+  ("StateMachine.AccountSpendableAmount", "6af3e457179b"),
+  ("StateMachine.clearAccountVestingIfFullyVested", "dbffe92b89cc"),
+  ("StateMachine.ValidateAccountAddWithVesting", "1bead3f5bf25"),
+  ("StateMachine.AccountAddWithVesting", "f8cea19acb35"),
+  ("MessageSend.Check", "f5fe216d4887"),
   ("StateMachine.SetPool", "df1558b2f6f2"),
   ("StateMachine.SetPools", "e08e17744db9"),
   ("StateMachine.MintToPool", "ad7616eeff77"),
